@@ -44,7 +44,7 @@ func parse(name string) cfg {
 type call struct {
 	fn      int
 	args    []int
-	outcome int // 0 ok 1 error 2 panic 3 short
+	outcome int // 0 ok 1 error 2 panic(string) 3 short 4 panic(error) 5 panic(int) 6 panic(struct)
 }
 
 type ret struct {
@@ -89,7 +89,7 @@ func item(c cfg) *explore.Item {
 					}
 					calls = append(calls, cl)
 					if c.Faults {
-						cl.outcome = rt.Choose(4, true, "many-outcome")
+						cl.outcome = rt.Choose(7, true, "many-outcome")
 					}
 					rt.Yield()
 					switch cl.outcome {
@@ -97,6 +97,12 @@ func item(c cfg) *explore.Item {
 						return nil, errBatch
 					case 2:
 						panic("many panics")
+					case 4:
+						panic(errBatch)
+					case 5:
+						panic(42)
+					case 6:
+						panic(struct{ code int }{7})
 					}
 					res := make([]interface{}, len(args))
 					for i, a := range args {
@@ -258,5 +264,5 @@ func run(rp *explore.Report, tier string) {
 func init() {
 	reg.Register(&reg.Harness{Property: "C05", Name: "c05/batch", Level: "model_checking", Bounds: [2]int{3, 4}, Run: run,
 		Item: func(name string) *explore.Item { return item(parse(name)) },
-		Rule: "items = callers K x shard function x MaxSize x canceller thread (cancelling everything, or only one caller's own context with a later call on the live batching context) x concurrency limiter size x batch-function outcome (explorer choice: ok/error/panic/short); all interleavings incl. early firings of the virtual wait-interval and max-duration timers within the deviation bound, on the real batch.Func.Invoke; non-trivial = K>1 concurrent callers"})
+		Rule: "items = callers K x shard function x MaxSize x canceller thread (cancelling everything, or only one caller's own context with a later call on the live batching context) x concurrency limiter size x batch-function outcome (explorer choice: ok / error / short result / panic with a string, an error, an int or a struct value); all interleavings incl. early firings of the virtual wait-interval and max-duration timers within the deviation bound, on the real batch.Func.Invoke; non-trivial = K>1 concurrent callers"})
 }
